@@ -3,6 +3,8 @@ package main
 // Verification harness (overlay) for C15 — video/voice call life cycle.
 // Extends the World driver (registries in zz_verif_replay_test.go); it only RECORDS:
 //   action  C15Note{s,t,seq,event,payload?}   = {note what=call} with an optional payload (offer/answer/ice-candidate carry one)
+//   action  C15Timeout{t}                     = the REAL callEstablishmentTimer of the topic is made to expire (only while it is armed:
+//                                               a call is being established), and the step lasts until the timer's case of Topic.run has run
 //   record  rec["c15"] = {configured, calls:{<p2p topic>:{active,seq,parties,orig,origUid,accepted,content}}, pay:[{s,event,payload}]}
 // The call slot is read from the topic actor's own fields AFTER quiescence (the runner quiesces before every record).
 
@@ -11,6 +13,7 @@ import (
 	"os"
 	"sort"
 	"strings"
+	"time"
 )
 
 // payloads seen in {info what=call} frames of the current step (filled by C15Note, consumed by the record hook)
@@ -75,6 +78,30 @@ func init() {
 			x.mu.Unlock()
 		}
 		return "", nil
+	}
+
+	// The shared CallTimeout step resets the timer and quiesces after a fixed 200us; a timer expiry is invisible to the quiescence
+	// probes, so on a loaded machine the expiry could land in the NEXT step. Here the step waits (bounded) until the expiry has been
+	// handled: the slot is read only at quiescence.
+	verifExtraActions["C15Timeout"] = func(r *verifRunner, a map[string]any) (string, error) {
+		w := r.w
+		tp := w.hub.topicGet(w.canon(verifStr(a, "t")))
+		if tp == nil || tp.isInactive() || tp.currentCall == nil || !tp.currentCall.acceptedAt.IsZero() {
+			// no call, or the call was accepted: the code has stopped the timer (calls.go:313,381), it cannot expire
+			return "", w.quiesce()
+		}
+		seq := tp.currentCall.seq
+		tp.callEstablishmentTimer.Reset(time.Nanosecond)
+		deadline := time.Now().Add(2 * time.Second)
+		for {
+			time.Sleep(200 * time.Microsecond)
+			if err := w.quiesce(); err != nil {
+				return "", err
+			}
+			if cc := tp.currentCall; cc == nil || cc.seq != seq || time.Now().After(deadline) {
+				return "", nil
+			}
+		}
 	}
 
 	verifExtraRecord = append(verifExtraRecord, func(r *verifRunner, rec map[string]any) {
